@@ -1,5 +1,6 @@
 """C01vm — VM-level theorem of C01: compile-correctness of the bytecode compiler (incl. optimizeTailRec and
-optimizeCodeOps) + backtracking frame VM for fragment F2 (closures, functions, parameters, recursion; docs/C01vm.md).
+optimizeCodeOps) + backtracking frame VM for fragment F3 (closures, functions, parameters, recursion, object construction,
+destructuring `as`, computed index / slices, string interpolation; docs/C01vm.md).
 Extra check contributing to C01 (and to C04 for the two optimisation passes)."""
 import json, os, re, sys
 import verif as V
@@ -36,7 +37,8 @@ def _prog_of(line):
 def run(tier, seed):
     c = V.Check(PROP, tier, seed, evidence_name="C01vm")
     c.assumptions += [
-        "natives (funcIndex2, opiter's enumeration of a value, error/length, the 8 binary operators) are total "
+        "natives (funcIndex2, funcSlice, opiter's enumeration of a value, error/length/tostring/tojson, the 8 binary "
+        "operators) are total "
         "functions value -> value + error; the theorems quantify over all of them; the executable correspondence "
         "instantiates them for integers, ASCII strings, arrays, objects (coq/c01vm2/Natives.v)",
         "data/scope/fork stacks are persistent lists; popscope's `free := index > limit` is stated at list level with a "
@@ -53,6 +55,12 @@ def run(tier, seed):
         "are about) and optimizeTailRec twice (Compile.tailrec = the Go scan; Compile.compg true = the compiler with the "
         "pass built in, the version the theorems are about); the model checks on every sampled program that the two "
         "versions coincide and that the side conditions of the peephole theorem hold (they are also proved)",
+        "object construction: opobject's map building is the concrete Syntax.mk_obj (last pair wins, non-string key = "
+        "error); compileObject's constant-folding test is modelled entry by entry (compiler.go tests flat positions)",
+        "fragment restrictions of step 5 (not generated): the destructuring alternative ?// (its fork intercepts errors "
+        "raised downstream of the whole expression: not expressible by the direct-style denotation), computed keys and "
+        "repeated names in patterns, patterns in reduce/foreach, {\"a\\(q)\"} without a value, formats other than "
+        "@text/@json, a function definition in front of a literal index",
         "fragment restrictions (programs outside are not generated): a function body / an argument closure of a "
         "user-defined function sees no label of its context; a call of the enclosing parameterless function in the "
         "right side of //, a catch handler, the extract part of foreach or a label body (tail positions for the Go scan "
@@ -118,8 +126,8 @@ def run(tier, seed):
             kind = "instruction-list" if line.startswith("(code ") else "vm-model"
             c.broken_correspondence(kind, line, "model: " + verdict[:2000])
             reported += 1
-    rule = ("programs of fragment F2 (closures, definitions, filter/$value parameters, recursion templates incl. tail "
-            "calls): every AST with <= 3 nodes (4 in the thorough tier) over a small leaf set x all 12 "
+    rule = ("programs of fragment F3 (closures, definitions, filter/$value parameters, recursion templates incl. tail "
+            "calls, object construction, destructuring as, computed index / slices, string interpolation): every AST with <= 3 nodes (4 in the thorough tier) over a small leaf set x all 12 "
             "inputs, a random sample of the next size, and random ASTs of 3..60 nodes x 4 inputs; per program one "
             "instruction-list comparison (implementation vs Compile.compile, exact) and per (program, input) a 3-way "
             "comparison implementation / VM model (raw and peepholed code) / den; distinct = distinct case lines")
